@@ -695,6 +695,7 @@ def evaluate(built, item, binds=(None,), n_val=mz.N_VALUATIONS, api=None, opts=N
                 rgot = run_ref(opt, feeds)
                 if compare_runs(exp, rgot) is None:
                     cnt["optimized_runtimes_disagree_reference_matches_original"] += 1
+                    cnt["optimized_runtimes_disagree:" + (rec.get("diff") or "unchanged")[:50]] += 1
                     continue
             except runeq.RunError:
                 pass
